@@ -160,14 +160,29 @@ def atoms(*pairs):
     return atom
 
 
-def resolve_value(n, atom):
-    """value of an expression under atom assumptions: follows ?: ; returns leaf node"""
+def deref_local(fn, n):
+    """if n is a reference to a local that is initialised once and never written again, its initialiser; else n"""
     n = skip_copies(n)
+    seen = 0
+    while fn is not None and isinstance(n, dict) and n.get("k") == "ref" and n.get("dk") == "local" and seen < 5:
+        dn, var = local_var(fn, n["decl"])
+        if var is None or not isinstance(var.get("init"), dict):
+            break
+        if any(write_kind(fn, r) or assignment_target(fn, r)[0] is not None for r in refs_to(fn, n["decl"])):
+            break
+        n = skip_copies(var["init"])
+        seen += 1
+    return n
+
+
+def resolve_value(n, atom, fn=None):
+    """value of an expression under atom assumptions: follows ?: and single-assignment locals; returns leaf node"""
+    n = deref_local(fn, n)
     while isinstance(n, dict) and n.get("k") == "cond":
         v = eval_cond(n.get("cond"), atom)
         if v is None:
             return n
-        n = skip_copies(n.get("t") if v else n.get("f"))
+        n = deref_local(fn, n.get("t") if v else n.get("f"))
     return n
 
 
@@ -411,3 +426,44 @@ def var_history(fn, g, decl):
     keyed.sort(key=functools.cmp_to_key(cmp))
     # reads inside a later assignment's rhs sort before the assignment's own site; fine
     return [e for _, e in keyed]
+
+
+def json_value_inner(n):
+    """look through QJsonValue(...) conversions"""
+    n = skip_copies(n)
+    while isinstance(n, dict) and n.get("k") == "construct" and n.get("class") in ("QJsonValue",) and len(n.get("args", [])) == 1:
+        n = skip_copies(n["args"][0])
+    return n
+
+
+def json_sets(fn):
+    """[{obj, key, keynode, value, node}] for every `obj[key] = value` / `obj.insert(key, value)` on a local QJsonObject"""
+    out = []
+    for n in sorted(fn.all_nodes(), key=lambda n: n["id"]):
+        if n.get("k") != "call":
+            continue
+        if n.get("op") == "=" and len(n.get("args", [])) == 2:
+            lhs = skip_copies(n["args"][0])
+            if isinstance(lhs, dict) and lhs.get("k") == "call" and lhs.get("op") == "[]" and (lhs.get("cls") or "") in ("QJsonObject",):
+                o = skip_copies(lhs["args"][0])
+                out.append({"obj": o.get("decl") if o.get("k") == "ref" else None, "key": const_str(lhs["args"][1]), "keynode": lhs["args"][1],
+                            "value": json_value_inner(n["args"][1]), "node": n})
+        elif n.get("ck") == "member" and name_is(n.get("callee"), "QJsonObject::insert") and len(n.get("args", [])) == 2:
+            o = skip_copies(n.get("obj"))
+            out.append({"obj": o.get("decl") if o.get("k") == "ref" else None, "key": const_str(n["args"][0]), "keynode": n["args"][0],
+                        "value": json_value_inner(n["args"][1]), "node": n})
+    return out
+
+
+def call_chain(n):
+    """names of a member-call chain from the outermost call inwards: a().b().c() -> ['c', 'b', 'a'] plus the root object"""
+    names = []
+    n = skip_copies(n)
+    while isinstance(n, dict) and n.get("k") == "call":
+        names.append((n.get("callee") or "?"))
+        if n.get("ck") == "member":
+            n = skip_copies(n.get("obj"))
+        else:
+            n = None
+            break
+    return names, n
